@@ -117,6 +117,13 @@ def _operand(node, h):
     return expr(node, h)
 
 
+def _cond(ast, h):
+    """condition of Implies / IfThenElse: a z3 term, or a plain python bool (the field is typed Union[BoolRef, bool])"""
+    if ast.get("op") == "bool" and ast.get("py"):
+        return bool(ast["v"])
+    return expr(ast, h)
+
+
 def _ivs(lst):
     return [tuple(x) for x in lst]
 
@@ -209,11 +216,11 @@ def make_constraint(c, h):
         obj = ps.Xor(constraint_1=_operand(c["c1"], h), constraint_2=_operand(c["c2"], h), **kw)
     elif t == "Implies":
         obj = ps.Implies(
-            condition=expr(c["cond"], h), list_of_constraints=[_operand(x, h) for x in c["cs"]], **kw
+            condition=_cond(c["cond"], h), list_of_constraints=[_operand(x, h) for x in c["cs"]], **kw
         )
     elif t == "IfThenElse":
         obj = ps.IfThenElse(
-            condition=expr(c["cond"], h),
+            condition=_cond(c["cond"], h),
             then_list_of_constraints=[_operand(x, h) for x in c["then"]],
             else_list_of_constraints=[_operand(x, h) for x in c["else"]],
             **kw,
